@@ -153,7 +153,7 @@ def gen_case(rng, tier):
             ops.append(["remove", ix, None])
         live.append(ix)
     return {"net": net.json(), "tree": tree, "ops": ops, "seed": rng.randrange(1 << 30),
-            "bystander": rng.random() < 0.4}
+            "bystander": rng.random() < 0.4, "touch": rng.random() < 0.5}
 
 
 # --------------------------------------------------------------------------------------------
@@ -172,9 +172,27 @@ def to_arr(x):
     return {"shape": [int(d) for d in x.shape], "data": [int(v) for v in x.reshape(-1)]}
 
 
-def apply_ops(tree, ops):
+def touch(tree, arrays):
+    """use the tree between two steps of the history (numbering slices, contracting): whatever it remembers
+    from this moment must not survive the next change of the slicing state"""
+    try:
+        for i in range(min(int(tree.nslices), 6)):
+            tree.slice_key(i)
+        tree.nchunks
+        if arrays is not None:
+            tree.contract(arrays)
+            if tree.sliced_inds:
+                for _ in tree.gen_output_chunks(arrays, with_key=True):
+                    break
+    except Exception:  # noqa: BLE001  (judged at the end of the history, on the final state)
+        pass
+
+
+def apply_ops(tree, ops, touch_at=(), arrays=None):
     errors = []
-    for op in ops:
+    for k, op in enumerate(ops):
+        if k in touch_at:
+            touch(tree, arrays)
         try:
             if op[0] == "remove":
                 if op[2] is None:
@@ -192,7 +210,13 @@ def apply_ops(tree, ops):
 def build(case):
     net = gen.Net.from_json(case["net"])
     tree = gen.real_tree(ctg, net, case["tree"])
-    errors = apply_ops(tree, case["ops"])
+    if case.get("touch"):
+        import random
+        rr = random.Random(case["seed"] ^ 0x70C)
+        at = {k for k in range(len(case["ops"])) if rr.random() < 0.6}
+        errors = apply_ops(tree, case["ops"], at, rand_arrays(net, case["seed"]))
+    else:
+        errors = apply_ops(tree, case["ops"])
     if case.get("bystander"):
         bystander(tree, case["seed"])
     return net, tree, errors
@@ -615,6 +639,8 @@ def check_case(ctx, drv, case):
                             if ns <= 64 else ">64"))
     ctx.count("nchunks:" + ("1" if obs["nchunks"] == 1 else ">1"))
     ctx.count("slice_numbers_checked", ns)
+    if case.get("touch"):
+        ctx.count("used-between-steps")
     if case.get("bystander"):
         ctx.count("bystander-on-a-copy" + ("(sliced receiver)" if live else "(unsliced receiver)"))
     for e in obs["errors"]:
